@@ -2,6 +2,7 @@
 
 import random
 
+from .. import suiteengine
 from ..common import ALL_ALGOS, DEFAULT_ALGOS, new_scratch, rmtree, split_seeds, clear_atexit_tmp_handlers
 from ..gen import make_content, op_shape, spelling
 from ..model import SPELLINGS, canon_algo
@@ -38,7 +39,7 @@ def relevant(f):
 def shards(tier, seed):
     n = 16
     per = 6 if tier == "quick" else 120
-    return [(s, per, i) for i, s in enumerate(split_seeds(seed * 1000 + 2, n))]
+    return [(s, per, i) for i, s in enumerate(split_seeds(seed * 1000 + 2, n))] + [("suite", 0, -1)]
 
 
 def min_required(tier):
@@ -122,8 +123,11 @@ def history(rng, w, res, algo_cycle):
 
 
 def run_shard(sub_seed, n, idx):
-    rng = random.Random(sub_seed)
     res = ShardResult()
+    if sub_seed == "suite":
+        suiteengine.run(res, ID)
+        return res
+    rng = random.Random(sub_seed)
     contents = {k: make_content(v["cseed"], v["size"]) for k, v in SPEC.items()}
 
     def cyc():
